@@ -110,16 +110,21 @@ Theorem C01_parse_eof_located :
   exists body m, ms = body ++ [m] /\ is_eof (mtok m) = true /\ designates (dec_all s) (mtok m).
 Proof. exact pump_eof_located. Qed.
 
-(* PARTIAL: a parse error is located PROVIDED its token is one of the parser's input tokens.
-   Missing: the parser-model lemma  parse_* fok ts = PErr k t rem -> In t ts \/ t = eof_tok
-   (C02 proves totality / crash freedom / yield, not the provenance of error tokens; the error
-   token index is compared with the real parser on every run instead). *)
-Theorem C01_parse_error_located_partial :
-  forall fok mode s ms k t rem,
-  pump s = OK ms -> parse_mode fok mode (to_ptoks ms) = ParseBase.PErr k t rem ->
-  In t (to_ptoks ms) ->
-  exists m, In m ms /\ conv (mtok m) = t /\ designates (dec_all s) (mtok m).
-Proof. exact parse_error_located_partial. Qed.
+(* Every parse error is located: whenever parsing a byte string (any entry point, any ParseFloat
+   oracle) ends in a *ParseError, the pumped token the error refers to ([err_meta]: the token at
+   index length - rem of the significant stream, the EOF meta for an error at the end of input -
+   this is the token whose type / literal / line / column the correspondence compares with the
+   real parser) exists, is one of the tokens the parser was given, is the image of the model's
+   error token (or the EOF meta), and its (line, column) designates its text.
+   From C02's parse_error_located (the error token is eof_tok or the token at that index),
+   C01_pump_tokens_located and C01_parse_eof_located. *)
+Theorem C01_parse_error_located :
+  forall fok mode (s : list byte) k t rem,
+  parse_source fok mode s = ParseBase.PErr k t rem ->
+  exists ms m, pump s = OK ms /\ err_meta ms t rem = Some m /\ In m ms /\
+               designates (dec_all s) (mtok m) /\
+               (conv (mtok m) = t \/ (t = ParseBase.eof_tok /\ is_eof (mtok m) = true)).
+Proof. exact parse_error_located. Qed.
 
 (* T tie: the keyword table regenerated from token/token.go is the documented one; the token
    type names are pairwise distinct and none is empty. *)
@@ -146,6 +151,6 @@ Print Assumptions C01_parse_total.
 Print Assumptions C01_parse_no_crash.
 Print Assumptions C01_pump_tokens_located.
 Print Assumptions C01_parse_eof_located.
-Print Assumptions C01_parse_error_located_partial.
+Print Assumptions C01_parse_error_located.
 Print Assumptions C01_keywords_documented.
 Print Assumptions C01_token_types_distinct.
